@@ -128,7 +128,13 @@ func GenDispatchProgram(t *rapid.T, prof DispatchProfile) *Program {
 		spec.Egress = e
 		sys.DNS = map[string][][]string{}
 		for _, h := range []string{"t0.example", "t1.example", "t9.example", "internal.corp", "evil.example", "allowed.example", "sub.allowed.example"} {
-			switch rapid.IntRange(0, 11).Draw(t, "dns."+h) {
+			switch rapid.IntRange(0, 13).Draw(t, "dns."+h) {
+			case 12:
+				// the resolver answers, then fails (an outage), then answers again: a check whose lookup
+				// fails sends nothing, whatever an earlier lookup said
+				sys.DNS[h] = [][]string{{"93.184.216.34"}, {}, {"93.184.216.34"}}
+			case 13:
+				sys.DNS[h] = [][]string{{"93.184.216.34"}, {"93.184.216.34"}, {}}
 			case 10, 11:
 				// an address at the edge of an address class, alone or next to a public one, in the
 				// first answer or in a later one (the answer a redirect hop or a redelivery gets)
